@@ -15,7 +15,7 @@ import re
 import zlib
 
 from . import c01_lib as L
-from .c01_exec import diff_fields, mk_commit, mk_tag, rd_commit, rd_tag, set_attr
+from .c01_exec import diff_fields, impl_exc, mk_commit, mk_tag, rd_commit, rd_tag, set_attr
 
 TREE_ENTRIES = [((45,), 16384), ((45, 48), 33188), ((45, 45), 33188)]     # "-" (dir), "-0", "--"
 BLOB_KEYS = ["", "1,2", "0,1,0"]
@@ -327,11 +327,15 @@ def execute(conc, origin, v0, ops, flavour=0, states=None, epilogue=True):
     try:
         ob = Obj(conc, origin, v0, flavour)
     except Exception as e:  # noqa: BLE001
+        if not impl_exc(e):
+            raise
         return [(0, f"exception:{type(e).__name__}", str(e)[:200])], [], []
     for i, (op, args) in enumerate(list(ops) + (EPILOGUE if epilogue else [])):
         try:
             kind_of, value = ob.do(op, args)
         except Exception as e:  # noqa: BLE001
+            if not impl_exc(e):
+                raise
             fails.append((i, f"exception:{op}:{type(e).__name__}", str(e)[:200]))
             break
         cl = judge(conc, kind_of, value, ob.tracked)
